@@ -23,7 +23,7 @@ fn cases(_ob: &str) -> Vec<String> {
             }
         }
     }
-    for t in ["", ")", "(", "#", "\"abc", "(a . )", "1.", "#\\", "]", "(]", "#u8(300)", "a)b", ") ) )"] {
+    for t in ["", ")", "(", "#", "\"abc", "(a . )", "1.", "#\\", "]", "(]", "#u8(300)", "a)b", ") ) )", "(1 #z) 2", "#(1 #z) 2", "(1 (2 #z) 3) 4", "[1 #z] 2", "(a . #z) b", "#u8(1 x) 2", "(1 2", "\"x", "1 #z 2"] {
         out.push(format!("iter:{}", crate::hex(t.as_bytes())));
     }
     out
@@ -60,10 +60,10 @@ fn check(case: &str) -> Option<String> {
             }
             let mut p2 = Parser::from_slice_custom(&bytes, parse::Options::default());
             let mut m = 0usize;
-            for _item in p2.datum_iter() { m += 1; if m > bytes.len() + 2 { return Some(format!("datum_iter over {:?} does not terminate", String::from_utf8_lossy(&bytes))); } }
+            for _item in p2.datum_iter() { m += 1; if m > bytes.len() + 2 { return Some(format!("datum_iter over {:?} yields more than {} items (does not terminate)", String::from_utf8_lossy(&bytes), bytes.len() + 2)); } }
             let mut p3 = Parser::from_slice_custom(&bytes, parse::Options::default());
             let mut k = 0usize;
-            while let Some(_) = p3.next() { k += 1; if k > bytes.len() + 2 { return Some("Iterator for Parser does not terminate".into()); } }
+            while let Some(_) = p3.next() { k += 1; if k > bytes.len() + 2 { return Some(format!("Iterator for Parser over {:?} yields more than {} items (does not terminate)", String::from_utf8_lossy(&bytes), bytes.len() + 2)); } }
             if n != m || n != k { return Some(format!("iteration styles disagree on item count: {} {} {}", n, m, k)); }
             None
         }
